@@ -542,3 +542,35 @@ def api_defaults(ctx):
     from .common_defaults import defaults as run
     n = run(ctx, [('keys:Key.__init__', 'strict', 'True'), ('keys:Key.__init__', 'compressed', 'True'), ('keys:HDKey.__init__', 'compressed', 'True'), ('scripts:Script.parse', 'strict', 'True'), ('scripts:Script.parse_bytesio', 'strict', 'True'), ('scripts:Script.parse_bytes', 'strict', 'True'), ('scripts:Script.parse_hex', 'strict', 'True'), ('transactions:Input.__init__', 'strict', 'True'), ('transactions:Output.__init__', 'strict', 'True'), ('transactions:Transaction.parse', 'strict', 'True'), ('transactions:Transaction.parse_bytesio', 'strict', 'True'), ('transactions:Transaction.add_input', 'strict', 'True'), ('transactions:Transaction.add_output', 'strict', 'True')], 'invalid public keys / non-standard scripts are accepted by default')
     ctx.floor(n, 12, 'parameter defaults')
+
+
+@PROP.obligation('C04.parity-numeric', canaries=[
+    mut.replace_expr('keys', 'Key.__init__', "'03' if self._y % 2 else '02'", "'03' if self.y_hex[-1] in '13579bdf' else '02'", 'parity of y read from the last hex character, case-sensitively', nth=1),
+])
+def parity_numeric(ctx):
+    """Everywhere keys.py chooses between the compressed prefixes 02 and 03 the choice is made on the NUMBER y (y % 2 / y & 1), never on
+    characters of a hex string (an imported upper-case hex key would give the prefix of -P for y ending in B, D, F)."""
+    n = 0
+    m = ctx.repo.mod('keys')
+    for q, fn in m.functions.items():
+        for node in ast.walk(fn):
+            test = None
+            if isinstance(node, ast.IfExp) and isinstance(node.body, ast.Constant) and isinstance(node.orelse, ast.Constant) and {node.body.value, node.orelse.value} == {'02', '03'}:
+                test = node.test
+            elif isinstance(node, ast.If) and len(node.body) == 1 and len(node.orelse) == 1 and all(isinstance(b, ast.Assign) and isinstance(b.value, ast.Constant) for b in (node.body[0], node.orelse[0])) \
+                    and {node.body[0].value.value, node.orelse[0].value.value} == {'02', '03'}:
+                test = node.test
+            if test is None:
+                continue
+            n += 1
+            txt = norm(test)
+            numeric = isinstance(test, ast.BinOp) and isinstance(test.op, (ast.Mod, ast.BitAnd)) and isinstance(test.right, ast.Constant) and test.right.value in (1, 2)
+            ctx.saw('keys:%s line %d: prefix chosen by `%s`' % (q, node.lineno, txt))
+            if numeric:
+                continue
+            if any(isinstance(x, ast.Compare) and isinstance(x.ops[0], (ast.In, ast.NotIn)) and isinstance(x.comparators[0], ast.Constant) and isinstance(x.comparators[0].value, str) for x in ast.walk(test)) or 'hex' in txt:
+                ctx.violate('keys:' + q, 'the 02 / 03 prefix is chosen by `%s`: characters of a hex string instead of the parity of the number' % txt, node,
+                            'Key(<upper-case uncompressed hex>) whose y ends in B / D / F gets the compressed form of -P: another address')
+            else:
+                ctx.unsure('keys:%s: parity test `%s` not recognised' % (q, txt))
+    ctx.floor(n, 3, 'choices between the prefixes 02 and 03')
